@@ -37,6 +37,9 @@ enum Op {
     SetCall(usize),
     /// SET_VRING_CALL without a descriptor: the ring has no call descriptor afterwards
     DropCall(usize),
+    /// SET_PROTOCOL_FEATURES once more on the same connection, with the shared-object and
+    /// shared-memory bits re-drawn: a channel attached afterwards follows the latest set
+    Renegotiate(u64),
     /// SET_VRING_NUM with a size that does not fit 16 bits (the field is 32 bits wide on the
     /// wire; the Frontend API cannot send it): larger than any maximum, must be refused
     SetNumWide(usize, u32),
@@ -126,7 +129,7 @@ fn run_v<V: VringT<GM<()>> + Clone + Send + Sync + 'static>(sim: &Sim, _cfg: &Ru
         let mut ops = Vec::new();
         for _ in 0..n {
             let r = t.draw(nrings as u64) as usize;
-            ops.push(match t.draw(21) {
+            ops.push(match t.draw(22) {
                 0 | 1 => Op::SetNum(r, gen_num(t)),
                 2 => Op::SetBase(r, t.lattice32() as u16),
                 3 | 4 => {
@@ -138,6 +141,16 @@ fn run_v<V: VringT<GM<()>> + Clone + Send + Sync + 'static>(sim: &Sim, _cfg: &Ru
                 }
                 17 => Op::AddrOutside(r, t.draw(3) as u8),
                 18 => Op::DropCall(r),
+                20 => {
+                    let mut b = 0;
+                    if t.chance(1, 2) {
+                        b |= pf::SHARED_OBJECT;
+                    }
+                    if t.chance(1, 2) {
+                        b |= pf::SHMEM;
+                    }
+                    Op::Renegotiate(b)
+                }
                 19 => {
                     let low = *t.pick(&[0u32, 1, 2, 16, 0x100, 0x8000, 0xffff]);
                     let high = *t.pick(&[1u32, 2, 0x100, 0x8000, 0xffff]);
@@ -259,6 +272,8 @@ fn run_v<V: VringT<GM<()>> + Clone + Send + Sync + 'static>(sim: &Sim, _cfg: &Ru
     // verdict shows as the connection dying, which the next message would notice; keep it
     // simple and judge acceptance only when acknowledgements are on
     let acks = protos & pf::REPLY_ACK != 0;
+    // the protocol features in force on the current connection (a renegotiation changes them)
+    let cur = std::cell::Cell::new(protos);
     for (step, op) in ops.iter().enumerate() {
         let mut dead = false;
         match op {
@@ -360,6 +375,13 @@ fn run_v<V: VringT<GM<()>> + Clone + Send + Sync + 'static>(sim: &Sim, _cfg: &Ru
                 callfds.push(fd);
                 m[*r].call = Some(callfds.len() - 1);
             }
+            Op::Renegotiate(bits) => {
+                let p = (protos & !(pf::SHARED_OBJECT | pf::SHMEM)) | bits;
+                if let Err(e) = vmm.fe.set_protocol_features(VhostUserProtocolFeatures::from_bits_retain(p)) {
+                    viol("control_message_failed", "SET_PROTOCOL_FEATURES".into(), format!("step {step} {op:?}: {e:?}"));
+                }
+                cur.set(p);
+            }
             Op::SetNumWide(r, n) => {
                 let req = spec::FReq::SetVringNum { idx: *r as u32, num: *n };
                 let fd = vmm.raw.as_raw_fd();
@@ -400,7 +422,10 @@ fn run_v<V: VringT<GM<()>> + Clone + Send + Sync + 'static>(sim: &Sim, _cfg: &Ru
                         vmm.fe
                             .reset_owner()
                             .and_then(|_| vmm.fe.set_owner())
-                            .and_then(|_| vmm.fe.set_protocol_features(VhostUserProtocolFeatures::from_bits_retain(protos)))
+                            .and_then(|_| {
+                                cur.set(protos);
+                                vmm.fe.set_protocol_features(VhostUserProtocolFeatures::from_bits_retain(protos))
+                            })
                     } else {
                         vmm.fe.reset_device()
                     };
@@ -518,9 +543,9 @@ fn run_v<V: VringT<GM<()>> + Clone + Send + Sync + 'static>(sim: &Sim, _cfg: &Ru
                             *o2.lock().unwrap() = (Some(r1.is_ok()), Some(r2.is_ok()));
                             drop(be);
                         });
-                        let so = protos & pf::SHARED_OBJECT != 0;
-                        let sh = protos & pf::SHMEM != 0;
-                        let ra = protos & pf::REPLY_ACK != 0;
+                        let so = cur.get() & pf::SHARED_OBJECT != 0;
+                        let sh = cur.get() & pf::SHMEM != 0;
+                        let ra = cur.get() & pf::REPLY_ACK != 0;
                         for (on, size, code, what) in [(so, 16usize, spec::br::SHARED_OBJECT_ADD, "SHARED_OBJECT"), (sh, 40, spec::br::SHMEM_UNMAP, "SHMEM")] {
                             if !on {
                                 continue;
@@ -585,7 +610,7 @@ fn run_v<V: VringT<GM<()>> + Clone + Send + Sync + 'static>(sim: &Sim, _cfg: &Ru
                             bad("SET_CONFIG", "backend did not receive (offset, bytes) as sent".into());
                         }
                     }
-                    2 if protos & pf::SHARED_OBJECT != 0 => {
+                    2 if cur.get() & pf::SHARED_OBJECT != 0 => {
                         let mut u = [0x77u8; 16];
                         u[0] = *off as u8;
                         u[1] = *size as u8;
@@ -635,7 +660,7 @@ fn run_v<V: VringT<GM<()>> + Clone + Send + Sync + 'static>(sim: &Sim, _cfg: &Ru
                             bad("CHECK_DEVICE_STATE", "backend not invoked exactly once".into());
                         }
                     }
-                    5 if protos & pf::SHMEM != 0 => match vmm.fe.get_shmem_config() {
+                    5 if cur.get() & pf::SHMEM != 0 => match vmm.fe.get_shmem_config() {
                         Ok(c) if c.nregions == 3 && c.memory_sizes[..3] == [0x1000, 0x22000, 0x333000] && c.memory_sizes[3..].iter().all(|x| *x == 0) => {}
                         other => bad("GET_SHMEM_CONFIG", format!("{:?}", other.map(|c| (c.nregions, c.memory_sizes[..4].to_vec())))),
                     },
@@ -714,6 +739,7 @@ fn run_v<V: VringT<GM<()>> + Clone + Send + Sync + 'static>(sim: &Sim, _cfg: &Ru
             let _ = daemon.wait();
             // a reconnecting VMM installs its kick descriptors again; call descriptors survive
             vmm = connect(&mut daemon, &mut listener, &pool, &table, &kickfds, acked_mask, &mut m);
+            cur.set(protos);
             for r in m.iter_mut() {
                 if r.addr_table != table_gen {
                     r.addr_table = r.addr_table.min(u64::MAX);
